@@ -19,8 +19,13 @@ pub fn watchdog(secs: u64) {
 }
 
 pub const WORKER_AS_LIMIT: u64 = 8 << 30;
-pub const WORKER_STACK: usize = 16 << 20;
+/// deliberately small (half of Rust's default thread stack): recursion that grows with the input shows up
+/// long before the declared-work budget is reached; legitimate depth (<= 64 directory levels) needs a few dozen KiB
+pub const WORKER_STACK: usize = 1 << 20;
 pub const CASE_TIMEOUT: Duration = Duration::from_secs(40);
+/// per API call (the counters are reset before each call of the battery)
+pub const OBSERVED_MAX_TILES: u64 = 1 << 21;
+pub const OBSERVED_MAX_VISITS: u64 = 10_000;
 
 #[derive(Clone, Debug, PartialEq, Eq)]
 pub enum Verdict {
@@ -34,6 +39,9 @@ pub enum Verdict {
     Timeout,
     /// infrastructure problem
     Infra(String),
+    /// the worker observed (library counters, feature `verif`) that the input asks for more run-length
+    /// expansion / directory visits than the stated budget and stopped itself: outside the claim
+    OverBudget,
 }
 
 /// One frame: mode, api mask, payload.
@@ -124,6 +132,11 @@ impl Worker {
                 if let Some(rest) = line.strip_prefix("OK ") {
                     return Verdict::Returned(rest.parse().unwrap_or(0));
                 }
+                if line == "OVER" {
+                    let _ = self.child.wait();
+                    self.alive.store(false, Ordering::Relaxed);
+                    return Verdict::OverBudget;
+                }
                 if let Some(rest) = line.strip_prefix("PANIC ") {
                     let mut it = rest.splitn(3, '\t');
                     let api = it.next().unwrap_or("").to_string();
@@ -187,7 +200,7 @@ pub fn run_job(job: &Job) -> Verdict {
             }
         }
         let v = w.as_mut().map(|x| x.run(job)).unwrap_or(Verdict::Infra("no worker".into()));
-        if matches!(v, Verdict::Died(_) | Verdict::Timeout | Verdict::Infra(_)) {
+        if matches!(v, Verdict::Died(_) | Verdict::Timeout | Verdict::Infra(_) | Verdict::OverBudget) {
             *w = None; // respawn on next use
         }
         v
@@ -218,6 +231,19 @@ pub fn worker_main() -> ! {
         libc::setrlimit(libc::RLIMIT_CORE, &core);
     }
     crate::engine::panics::install_hook();
+    // budget observer: the library (feature `verif`) counts expanded tile ids and directories read; when one API
+    // call exceeds the stated budget the worker says so and stops before memory or time run out
+    std::thread::spawn(|| loop {
+        std::thread::sleep(Duration::from_micros(300));
+        use pmtiles2::util::verif_counters::{DIRECTORIES_READ, EXPANDED_TILES};
+        if EXPANDED_TILES.load(Ordering::Relaxed) > OBSERVED_MAX_TILES || DIRECTORIES_READ.load(Ordering::Relaxed) > OBSERVED_MAX_VISITS {
+            let msg = b"OVER\n";
+            unsafe {
+                libc::write(1, msg.as_ptr().cast(), msg.len());
+                libc::_exit(0);
+            }
+        }
+    });
     let h = std::thread::Builder::new().stack_size(WORKER_STACK).spawn(worker_loop).expect("spawn worker thread");
     let _ = h.join();
     std::process::exit(0)
